@@ -127,7 +127,12 @@ def check(run):
             run.replayed += 1
             run.count(key=(repr(cc), tol), nontrivial=True)
             scale = 1.0 + max(abs(x) for v in cc['verts'] for x in v['t'])
-            if not (ret.initial_chi2 == before or abs(ret.initial_chi2 - before) <= 1e-12 * before) or not (ret.final_chi2 == after or abs(ret.final_chi2 - after) <= 1e-12 * (1e-300 + after)):
+            # (an inherited numerical Jacobian restores the perturbed pose through copy(), which re-wraps an SE(2) heading: poses may move by an
+            #  ulp WHILE the report's chi^2 is being accumulated; the allowance below is the effect of a 1e-14*scale change of the errors)
+            wmax = max(sum(abs(x) for x in row) for e in cc['edges'] for row in e['W'])
+            de = 1e-14 * scale
+            slack = lambda x: 1e-12 * x + 2.0 * (x * wmax) ** 0.5 * de + wmax * de * de      # noqa
+            if not (ret.initial_chi2 == before or abs(ret.initial_chi2 - before) <= slack(before)) or not (ret.final_chi2 == after or abs(ret.final_chi2 - after) <= slack(after)):
                 run.violation(dict(key, outcome='report'), 'initial/final chi2 of the report (%r, %r) are not calc_chi2() before/after (%r, %r)' % (ret.initial_chi2, ret.final_chi2, before, after), dict(case=cc))
                 continue
             if not (ret.final_chi2 <= ret.initial_chi2 * (1 + 1e-12)):
